@@ -452,7 +452,7 @@ func Replay(cfg Config, seed uint64, base, corrupt int, in io.Reader, out io.Wri
 				bad++
 				desc := Descriptor("F", cfg.Name, impl, st.Act, field)
 				o.Emit(map[string]any{"id": n, "ok": false, "step": i, "msg": msg, "desc": desc, "detail": w.extra,
-					"cfg": map[string]any{"type": cfg.Name, "l0": cfg.L0, "la": cfg.LA, "lb": cfg.LB, "seed": seed, "index": n},
+					"cfg":       map[string]any{"type": cfg.Name, "l0": cfg.L0, "la": cfg.LA, "lb": cfg.LB, "seed": seed, "index": n},
 					"behaviour": json.RawMessage(line)})
 				o.Flush()
 				break
